@@ -47,7 +47,7 @@ def cases(tier, seed):
                     yield {"kind": "naive", "strategy": strategy, "n": n, "sp": sp, "wl": wl, "off": [0, 5, -17, 1000][i % 4],
                            "nan": "none", "H": 3 * sp + 1, "gapped": i % 3 == 0, "insample": i % 4 == 1,
                            "idx": "range" if i % 2 else "int", "dseed": int(rng.integers(0, 2 ** 31))}
-    nn = 800 if tier == "quick" else 20000
+    nn = 800 if tier == "quick" else 60000
     for _ in range(nn):
         n = int(rng.integers(3, 60))
         sp = int(rng.integers(1, 9))
@@ -67,7 +67,7 @@ def cases(tier, seed):
                     continue
                 if n <= degree:
                     continue
-                for rep in range(2 if tier == "quick" else 6):
+                for rep in range(2 if tier == "quick" else 20):
                     yield {"kind": "poly", "n": n, "degree": degree, "intercept": icpt, "off": int(rng.choice([0, 7, -30, 10 ** 5])),
                            "fhkind": ["oos", "ins", "both", "gapped"][int(rng.integers(0, 4))], "idx": "range" if rep % 2 else "int",
                            "dseed": int(rng.integers(0, 2 ** 31))}
@@ -78,7 +78,7 @@ def cases(tier, seed):
     ]
     ets_opts = [{}, {"trend": "add"}, {"error": "mul"}, {"seasonal": "add", "sp": 4}, {"trend": "add", "damped_trend": True}]
     theta_opts = [{"sp": 1}, {"sp": 4}, {"sp": 4, "deseasonalize": False}, {"sp": 3}]
-    reps = 3 if tier == "quick" else 25
+    reps = 3 if tier == "quick" else 60
     for rep in range(reps):
         for o in es_opts:
             yield {"kind": "es", "opts": o, "n": int(rng.integers(16, 50)), "off": int(rng.choice([0, 11, 500])), "H": int(rng.integers(1, 9)),
